@@ -327,6 +327,10 @@ func (e *Exec) selectStmt(st *State, x *ssa.Select) {
 					st.mem[key] = e.sc.define("g.send_val", e.memSort[key], ite(chosen, fmt.Sprintf("(store %s %s %s)", svals, ch.S, sv.S), svals))
 				}
 			} else {
+				// receives chosen by a select are counted in their own ghost (selrecvd(ch))
+				sc2 := e.selRecvCount(st)
+				st.mem["ghost|selrecv_count"] = e.sc.define("g.selrecv_count", e.memSort["ghost|selrecv_count"],
+					ite(chosen, fmt.Sprintf("(store %s %s %s)", sc2, ch.S, e.add(fmt.Sprintf("(select %s %s)", sc2, ch.S), e.sc.idxLit(1))), sc2))
 				// the value received by this case is the (2+k)-th component of the select's result
 				k := 0
 				for j := 0; j < i; j++ {
@@ -427,9 +431,14 @@ func (e *Exec) assumeAfter(st *State, cc *ssa.CallCommon) {
 		c := e.specEnvLocals(st)
 		t, err := c.evalBool(strings.TrimSpace(cl.Expr[j+1:]))
 		if err != nil {
-			e.note("CONTRACT-ERROR assume_after: %v", err)
+			// the clause mentions a variable not in scope at this call: it applies to the other calls
+			// of that callee (a clause that applies nowhere is an error, checked after the run)
 			continue
 		}
+		if e.chanHits == nil {
+			e.chanHits = map[string]int{}
+		}
+		e.chanHits["assume_after#"+strings.TrimSpace(cl.Expr)]++
 		e.assume(st, t)
 		e.libUsed["assume-after:"+strings.TrimSpace(cl.Expr)] = true
 	}
@@ -546,6 +555,9 @@ func (e *Exec) doCallInner(fn *ssa.Function, fc *FuncContract, st *State, cc *ss
 		e.countCall(st, cc.Method.Name())
 		e.countCall(st, qualName(cc))
 		e.beforeCall(st, cc.Method.Name(), pos, args)
+		if qn := qualName(cc); qn != "" {
+			e.beforeCall(st, qn, pos, args)
+		}
 		// interface method contract?
 		if ic := e.eng.ifaceContract(cc); ic != nil {
 			all := append([]Val{fv}, args...)
@@ -581,6 +593,7 @@ func (e *Exec) doCallInner(fn *ssa.Function, fc *FuncContract, st *State, cc *ss
 		// dynamic function value (counted under the name of the parameter / variable holding it)
 		if prm, ok := cc.Value.(*ssa.Parameter); ok {
 			e.countCall(st, prm.Name())
+			e.beforeCall(st, prm.Name(), pos, args)
 		}
 		e.havocForCall(st, nil, cc, args)
 		e.libUsed["dynamic-call"] = true
@@ -858,8 +871,20 @@ func (e *Exec) privateCells(st *State, written map[*ssa.FreeVar]bool) map[string
 		for _, b := range e.fn.Blocks {
 			for _, ins := range b.Instrs {
 				al, ok := ins.(*ssa.Alloc)
-				if !ok || !al.Heap || written != nil {
+				if !ok || !al.Heap {
 					continue
+				}
+				if written != nil {
+					// at a loop head: only variables the loop body does not assign itself
+					assigned := false
+					for _, r := range *al.Referrers() {
+						if sto, ok := r.(*ssa.Store); ok && sto.Addr == ssa.Value(al) && e.loopBody != nil && e.loopBody[sto.Block()] {
+							assigned = true
+						}
+					}
+					if assigned || e.loopBody == nil {
+						continue
+					}
 				}
 				v, has := st.vals[al]
 				if !has || v.A != nil || v.S == "" || !onlyReturned(al) {
@@ -889,6 +914,12 @@ func onlyReturned(al *ssa.Alloc) bool {
 			case *ssa.Return, *ssa.DebugRef:
 			case *ssa.ChangeType:
 				if !flowsToReturn(x, depth+1) {
+					return false
+				}
+			case *ssa.Call:
+				// handed to sync.Once.Do, which runs it at once and does not keep it
+				cal := x.Call.StaticCallee()
+				if cal == nil || cal.String() != "(*sync.Once).Do" {
 					return false
 				}
 			default:
@@ -994,6 +1025,8 @@ func (e *Exec) havocKeysW(st *State, keys map[string]string, all bool, written m
 }
 
 func (e *Exec) havocKeysB(st *State, keys map[string]string, all bool, written map[*ssa.FreeVar]bool, body map[*ssa.BasicBlock]bool) {
+	e.loopBody = body
+	defer func() { e.loopBody = nil }()
 	var havocked []string
 	explicit := map[string]bool{}
 	for k := range keys {
@@ -1376,6 +1409,10 @@ func (e *Exec) beforeCall(st *State, name string, pos token.Pos, args []Val) {
 			}
 		}
 		c.where = fmt.Sprintf("%s:%d", cl.File, cl.Line)
+		if e.beforeHits == nil {
+			e.beforeHits = map[int]int{}
+		}
+		e.beforeHits[i]++
 		t, err := c.evalBool(strings.TrimSpace(cl.Expr[j+1:]))
 		if err != nil {
 			e.note("CONTRACT-ERROR before: %v", err)
